@@ -21,7 +21,7 @@ def ob(name, entry, desc, bounds, defines=(), tiers=('quick', 'thorough'), shift
 OBLIGATIONS = [
     ob('numchips.reject', 'harness_numchips', 'opn2_setNumChips with 0, -1, 101, -5, 1000, INT_MIN, INT_MAX: refused, reported chip counts and chips untouched, error recorded',
        'the seven boundary/invalid values of the property text, fresh instance'),
-    ob('numchips.accept', 'harness_numchips_ok', 'opn2_setNumChips(1|2|3): accepted, reported back, survives opn2_reset', 'chip counts 1..3'),
+    ob('numchips.accept', 'harness_numchips_ok', 'opn2_setNumChips(1|2|3): accepted, reported back, survives opn2_reset', 'chip counts 1..3', tiers=('thorough',)),
     ob('emulator', 'harness_emulator', 'opn2_switchEmulator with 12 unavailable / out-of-range ids (-1, compiled-out cores, 31, 32+k aliases, 64, 1000, INT_MIN/MAX): refused, emulator and chips untouched, error recorded',
        'ids enumerated on separate call sites; only MAME and the VGM dumper are compiled into the verification build; out-of-range shift amounts are masked as on x86'),
     ob('devid', 'harness_devid', 'opn2_setDeviceIdentifier with every unsigned value: 0..15 stored, others refused without effect', 'all 2^32 ids'),
